@@ -29,4 +29,31 @@ def durSecondsU8 (d : Int) : UInt8 := intToUInt8 (Int.tdiv d 1000000000)
 def durSecondsU16 (d : Int) : UInt16 := intToUInt16 (Int.tdiv d 1000000000)
 def durSecondsU32 (d : Int) : UInt32 := intToUInt32 (Int.tdiv d 1000000000)
 
+/-! ### package net (written from the Go 1.23 source; assumption `netIPDict` of the translator) -/
+
+/-- `net.CIDRMask(ones, bits)`: nil unless `bits` is 32 or 128 and `0 ≤ ones ≤ bits`; byte i has its `min 8 (ones − 8i)`
+    high bits set -/
+def cidrMask (ones bits : Int) : Bytes :=
+  if (bits = 32 ∨ bits = 128) ∧ 0 ≤ ones ∧ ones ≤ bits then
+    (List.range (bits.toNat / 8)).map (fun i =>
+      let n := ones.toNat - 8 * i
+      if 8 ≤ n then (0xff : UInt8) else ~~~ ((0xff : UInt8) >>> UInt8.ofNat n))
+  else []
+
+def v4InV6Prefix : Bytes := [0, 0, 0, 0, 0, 0, 0, 0, 0, 0, 0xff, 0xff]
+
+/-- `net.IP.Mask`: a 16-byte mask with 12 leading 0xff applies to a 4-byte address and a 4-byte mask to an IPv4-mapped
+    address; nil when the lengths then differ -/
+def ipMask (ip mask : Bytes) : Bytes :=
+  let mask := if mask.length = 16 ∧ ip.length = 4 ∧ (mask.take 12).all (· == 0xff) then mask.drop 12 else mask
+  let ip := if mask.length = 4 ∧ ip.length = 16 ∧ ip.take 12 == v4InV6Prefix then ip.drop 12 else ip
+  if ip.length = mask.length then List.zipWith (· &&& ·) ip mask else []
+
+/-- `net.IP.Equal`: equal bytes, or an IPv4 address and its IPv4-mapped form -/
+def ipEqual (a b : Bytes) : Bool :=
+  if a.length = b.length then a == b
+  else if a.length = 4 ∧ b.length = 16 then b.take 12 == v4InV6Prefix && a == b.drop 12
+  else if a.length = 16 ∧ b.length = 4 then a.take 12 == v4InV6Prefix && a.drop 12 == b
+  else false
+
 end PV.Model.LoopGoMarshal
